@@ -12,9 +12,10 @@ structure St where
   conns : List (Nat × Nat)
   callers : List (Nat × Nat)
   classes : List (Nat × Nat)
+  datas : List (Nat × Nat)
   lastId : String   -- request-id facts of the last request (C16's business): reported on a line of its own
 
-def St.init : St := ⟨Heap.empty, [], [], [], [], [], "none"⟩
+def St.init : St := ⟨Heap.empty, [], [], [], [], [], [], "none"⟩
 
 def find (t : List (Nat × Nat)) (n : Nat) : Option Nat := (t.find? (·.1 = n)).map (·.2)
 
@@ -152,16 +153,12 @@ def parseOwn (st : St) (s : String) : Option Own :=
 def parseOptRef (t : List (Nat × Nat)) (s : String) : Option (Option Nat) :=
   if s = "n" then some none else do some (some (← find t (← s.toNat?)))
 
-def parseBody (s : String) : Option Body :=
+def parseBody (st : St) (s : String) : Option DataArg :=
   match s.splitOn "=" with
   | ["n"] => some .none
   | ["b", b] => (parseNatList b).map .bytes
   | ["s", t] => (parseCps t).map .str
-  | ["j", v] =>
-    match parseJson v with
-    | some (.str _) => none        -- a str body is `s=`
-    | some j => some (.json j)
-    | none => none
+  | ["j", n] => (n.toNat?.bind (find st.datas)).map .obj     -- a structured object of the caller, by name
   | _ => none
 
 def parseVerb (s : String) : Option (Option Str) :=
@@ -182,7 +179,7 @@ def parseComps (s : String) : Option (Option (List Str)) :=
 def parseArgs (st : St) : List String → Option Args
   | [verb, path, params, body, headers, resp, raw] => do
     some { path := ← parseCps path, method := ← parseVerb verb, params := ← parseOptRef st.dicts params,
-           data := ← parseBody body, headers := ← parseOptRef st.dicts headers,
+           data := ← parseBody st body, headers := ← parseOptRef st.dicts headers,
            resp := ← (if resp = "E" then some none else (parseJson resp).map some), raw := raw = "1" }
   | _ => none
 
@@ -240,8 +237,8 @@ def showIdInfo (s : Sent) : String :=
      | none => "absent") ++ " u=" ++ showCps s.url
 
 /-- the caller's objects: dictionaries and adapter lists -/
-def userSnapshot (H : Heap) (upto : Heap) : List (Option Dict) × List (Option (List Adapter)) :=
-  (upto.userDicts.map (H.dicts[·]?), upto.userLists.map (H.lists[·]?))
+def userSnapshot (H : Heap) (upto : Heap) : List (Option Dict) × List (Option (List Adapter)) × List J :=
+  (upto.userDicts.map (H.dicts[·]?), upto.userLists.map (H.lists[·]?), H.datas.take upto.datas.length)
 
 def exec (st : St) (op : Op) (bind : St → Nat → St) : St × String :=
   let (H', r) := step st.heap op
@@ -288,6 +285,11 @@ def handle (st : St) (line : String) : St × String :=
   | ["add", name, a] =>
     match name.toNat?.bind (find st.conns), parseAdapter a with
     | some c, some ad => exec st (.add c ad) noBind
+    | _, _ => bad
+  | ["data", name, v] =>
+    match name.toNat?, parseJson v with
+    | some nm, some (.str _) => (fun (_ : Nat) => bad) nm      -- a str body is `s=`
+    | some nm, some j => exec st (.newData j) fun s n => { s with datas := (nm, n) :: s.datas }
     | _, _ => bad
   | ["pairs", name, _kind, kvs] =>
     match name.toNat?, parseTypedPairs kvs with
